@@ -8,6 +8,7 @@ import Flumine.SimLoop
 import Flumine.Lemmas.OrderLemmas
 import Flumine.Lemmas.WorldLemmas
 import Flumine.Lemmas.Final
+import Flumine.Betdaq
 import Mathlib.Tactic.Linarith
 namespace Flumine.C03
 open Flumine Flumine.World Flumine.OL Flumine.SimOrder
@@ -510,6 +511,201 @@ theorem blotter_orders_sent_whole_run (cfg : Config) (cl : List Client) (ss : Li
     ∀ oid ∈ ((runUpdates { cfg := cfg, clients := cl, strategies := ss } us).market! M).blotter,
       Sent ((runUpdates { cfg := cfg, clients := cl, strategies := ss } us).order! oid) :=
   ((fs_runUpdates M _ us).2 (bi_empty M cfg cl ss)).1.sent
+
+
+/-! ### the Betdaq order class (`BetdaqOrder`, `BetdaqExecution`, `process_betdaq_current_order`) -/
+
+section Bdq
+open Flumine.Betdaq
+
+def bdqOk {α} : Except DErr α → Bool | .ok _ => true | .error _ => false
+
+/-- `complete` is the cached `_is_complete()` of the status -/
+def BdqCons (o : DOrder) : Prop := ∀ s, o.status = some s → o.complete = Betdaq.isCompleteStatus s
+
+/-- C03.1 (Betdaq) a cancel is accepted exactly for a LIMIT order that rests executable with a bet id, without size reduction -/
+theorem bdq_cancel_accepted_iff (o : DOrder) (sr : Bool) :
+    bdqOk (Betdaq.cancel o sr) = true ↔ sr = false ∧ o.betId.isSome = true ∧ o.limit = true ∧ o.status = some .executable := by
+  unfold Betdaq.cancel bdqOk
+  cases sr <;> cases hb : o.betId <;> cases hl : o.limit <;> by_cases hs : o.status = some .executable <;> simp [hs]
+
+theorem bdq_update_accepted_iff (o : DOrder) :
+    bdqOk (Betdaq.update o) = true ↔ o.betId.isSome = true ∧ o.limit = true ∧ o.status = some .executable := by
+  unfold Betdaq.update bdqOk
+  cases hb : o.betId <;> cases hl : o.limit <;> by_cases hs : o.status = some .executable <;> simp [hs]
+
+/-- C03.2 (Betdaq) an accepted request puts the order in flight by one logged step, and while it is in flight every
+    further Betdaq.cancel or update is rejected -/
+theorem bdq_cancel_in_flight (o o' : DOrder) (sr : Bool) (h : Betdaq.cancel o sr = .ok o') :
+    o'.status = some .cancelling ∧ o'.log = o.log ++ [.cancelling] ∧ (∀ sr', bdqOk (Betdaq.cancel o' sr') = false) ∧ bdqOk (Betdaq.update o') = false := by
+  unfold Betdaq.cancel at h
+  split_ifs at h
+  have := (Except.ok.inj h).symm
+  subst this
+  refine ⟨rfl, rfl, fun sr' => ?_, ?_⟩
+  · have := bdq_cancel_accepted_iff (setStatus o .cancelling) sr'
+    cases hc : bdqOk (Betdaq.cancel (setStatus o .cancelling) sr')
+    · rfl
+    · rw [hc] at this; have h4 := (this.mp rfl).2.2.2; simp [setStatus] at h4
+  · have := bdq_update_accepted_iff (setStatus o .cancelling)
+    cases hc : bdqOk (Betdaq.update (setStatus o .cancelling))
+    · rfl
+    · rw [hc] at this; have h4 := (this.mp rfl).2.2; simp [setStatus] at h4
+
+theorem bdq_update_in_flight (o o' : DOrder) (h : Betdaq.update o = .ok o') :
+    o'.status = some .updating ∧ o'.log = o.log ++ [.updating] ∧ (∀ sr', bdqOk (Betdaq.cancel o' sr') = false) ∧ bdqOk (Betdaq.update o') = false := by
+  unfold Betdaq.update at h
+  split_ifs at h
+  have := (Except.ok.inj h).symm
+  subst this
+  refine ⟨rfl, rfl, fun sr' => ?_, ?_⟩
+  · have := bdq_cancel_accepted_iff (setStatus { o with udSet := true } .updating) sr'
+    cases hc : bdqOk (Betdaq.cancel (setStatus { o with udSet := true } .updating) sr')
+    · rfl
+    · rw [hc] at this; have h4 := (this.mp rfl).2.2.2; simp [setStatus] at h4
+  · have := bdq_update_accepted_iff (setStatus { o with udSet := true } .updating)
+    cases hc : bdqOk (Betdaq.update (setStatus { o with udSet := true } .updating))
+    · rfl
+    · rw [hc] at this; have h4 := (this.mp rfl).2.2; simp [setStatus] at h4
+
+/-- everything the execution handlers and the order stream can do to one order -/
+inductive BdqOp
+  | placeReport (returnCode : Nat) (orderId : Option Nat) | placeFailed
+  | cancelReported | cancelNotReported | updateReport (returnCode : Nat) | updateFailed
+  | stream (st : DStatus) (seq : Option Nat)
+
+def bdqApply (o : DOrder) : BdqOp → DOrder
+  | .placeReport rc b => Betdaq.placeReport o rc b
+  | .placeFailed => Betdaq.placeFailed o
+  | .cancelReported => Betdaq.cancelReported o
+  | .cancelNotReported => Betdaq.cancelNotReported o
+  | .updateReport rc => Betdaq.updateReport o rc
+  | .updateFailed => Betdaq.updateFailed o
+  | .stream st q => Betdaq.processCurrent o st q
+
+theorem bdq_setStatus_cons (o : DOrder) (s : Status) : BdqCons (setStatus o s) := by
+  intro t ht
+  have : s = t := Option.some.inj ht
+  subst this; rfl
+
+theorem bdq_executable_cons (o : DOrder) (h : BdqCons o) : BdqCons (Betdaq.executable o) := by
+  unfold Betdaq.executable
+  split
+  · exact h
+  · intro t ht; exact bdq_setStatus_cons o .executable t ht
+
+theorem bdq_executionComplete_cons (o : DOrder) : BdqCons (Betdaq.executionComplete o) := by
+  intro t ht; exact bdq_setStatus_cons o .executionComplete t ht
+
+/-- the consistency of status and `complete` is kept by every handler and stream update -/
+theorem bdq_apply_cons (o : DOrder) (op : BdqOp) (h : BdqCons o) : BdqCons (bdqApply o op) := by
+  cases op with
+  | placeReport rc b =>
+    show BdqCons (Betdaq.placeReport o rc b)
+    unfold Betdaq.placeReport
+    cases b <;> simp only <;> split
+    · exact bdq_executable_cons _ h
+    · exact bdq_executionComplete_cons _
+    · exact bdq_executable_cons _ (by intro t ht; exact h t ht)
+    · exact bdq_executionComplete_cons _
+  | placeFailed => exact bdq_executionComplete_cons _
+  | cancelReported => exact bdq_executionComplete_cons _
+  | cancelNotReported => exact bdq_executable_cons _ h
+  | updateReport rc =>
+    show BdqCons (Betdaq.updateReport o rc)
+    unfold Betdaq.updateReport
+    split
+    · exact bdq_executable_cons _ h
+    · exact h
+  | updateFailed => exact bdq_executable_cons _ h
+  | stream st q =>
+    show BdqCons (Betdaq.processCurrent o st q)
+    unfold Betdaq.processCurrent
+    simp only
+    have h' : BdqCons { o with seq := q, cur := some st } := fun t ht => h t ht
+    split_ifs
+    all_goals first
+      | exact bdq_executable_cons _ h'
+      | exact bdq_executionComplete_cons _
+      | exact h'
+
+/-- C03.3 (Betdaq) finality: whatever report arrives for it and whatever the order stream says, a complete order
+    stays complete -/
+theorem bdq_complete_is_final (o : DOrder) (op : BdqOp) (h : BdqCons o) (hc : o.complete = true) : (bdqApply o op).complete = true := by
+  have hx : ∀ (o : DOrder), o.complete = true → (Betdaq.executable o).complete = true := by
+    intro o hc; unfold Betdaq.executable; rw [if_pos hc]; exact hc
+  have hs : ∀ s : Status, o.status = some s → s ≠ .pending ∧ s ≠ .updating ∧ s ≠ .executable := by
+    intro s e
+    have := h s e
+    rw [hc] at this
+    refine ⟨?_, ?_, ?_⟩ <;> (intro e'; rw [e'] at this; revert this; decide)
+  cases op with
+  | placeReport rc b =>
+    show (Betdaq.placeReport o rc b).complete = true
+    unfold Betdaq.placeReport
+    cases b <;> simp only <;> split
+    · exact hx _ hc
+    · rfl
+    · exact hx _ hc
+    · rfl
+  | placeFailed => rfl
+  | cancelReported => rfl
+  | cancelNotReported => exact hx _ hc
+  | updateReport rc =>
+    show (Betdaq.updateReport o rc).complete = true
+    unfold Betdaq.updateReport
+    split
+    · exact hx _ hc
+    · exact hc
+  | updateFailed => exact hx _ hc
+  | stream st q =>
+    show (Betdaq.processCurrent o st q).complete = true
+    unfold Betdaq.processCurrent
+    simp only
+    have n1 : ¬ (o.status = some .pending ∧ o.betId.isSome = true) := fun e => (hs _ e.1).1 rfl
+    have n2 : ¬ (o.status = some .updating ∧ o.seq ≠ q) := fun e => (hs _ e.1).2.1 rfl
+    have n3 : ¬ o.status = some .executable := fun e => (hs _ e).2.2 rfl
+    rw [if_neg n1, if_neg n2, if_neg n3]
+    exact hc
+
+/-- C03.3 (Betdaq) the order stream only ever moves an order by one legal step: pending or updating to executable or
+    complete, executable to complete; anything else it leaves alone -/
+theorem bdq_stream_steps_legal (o : DOrder) (st : DStatus) (q : Option Nat) (h : BdqCons o) :
+    (Betdaq.processCurrent o st q).log = o.log ∧ (Betdaq.processCurrent o st q).status = o.status ∨
+    ∃ s, (Betdaq.processCurrent o st q).log = o.log ++ [s] ∧ (Betdaq.processCurrent o st q).status = some s ∧ legal o.status s = true := by
+  unfold Betdaq.processCurrent
+  simp only
+  have hnc : ∀ s : Status, o.status = some s → Betdaq.isCompleteStatus s = false → o.complete = false := by
+    intro s e hf; rw [h s e, hf]
+  have hexe : ∀ (o' : DOrder), o'.complete = false → o'.status = o.status → o'.log = o.log → ∀ s0, o.status = some s0 → legal (some s0) .executable = true →
+      ∃ s, (Betdaq.executable o').log = o.log ++ [s] ∧ (Betdaq.executable o').status = some s ∧ legal o.status s = true := by
+    intro o' hc _ hl s0 e hleg
+    unfold Betdaq.executable
+    rw [hc]
+    exact ⟨.executable, by simp [setStatus, hl], rfl, by rw [e]; exact hleg⟩
+  have hec : ∀ (o' : DOrder), o'.log = o.log → ∀ s0, o.status = some s0 → legal (some s0) .executionComplete = true →
+      ∃ s, (Betdaq.executionComplete o').log = o.log ++ [s] ∧ (Betdaq.executionComplete o').status = some s ∧ legal o.status s = true := by
+    intro o' hl s0 e hleg
+    exact ⟨.executionComplete, by simp [Betdaq.executionComplete, setStatus, hl], rfl, by rw [e]; exact hleg⟩
+  split_ifs with h1 h2 h3 h4 h5 h6
+  · right; exact hexe _ (hnc _ h1.1 (by decide)) rfl rfl _ h1.1 (by decide)
+  · right; exact hec _ rfl _ h1.1 (by decide)
+  · right; exact hexe _ (hnc _ h3.1 (by decide)) rfl rfl _ h3.1 (by decide)
+  · right; exact hec _ rfl _ h3.1 (by decide)
+  · right; exact hec _ rfl _ h5 (by decide)
+  · left; exact ⟨rfl, rfl⟩
+  · left; exact ⟨rfl, rfl⟩
+
+/-- non-vacuity: placed, accepted by the exchange, cancel requested, a second cancel rejected, the report completes it,
+    a late stream update and a late report change nothing -/
+example : (let o0 : DOrder := Betdaq.placing {}
+    let o1 := Betdaq.placeReport o0 0 (some 77)
+    let o2 := match Betdaq.cancel o1 false with | .ok x => x | .error _ => o1
+    (o1.status, o2.status, bdqOk (Betdaq.cancel o2 false), (Betdaq.cancelReported o2).status,
+      (Betdaq.processCurrent (Betdaq.cancelReported o2) .unmatched (some 5)).status, (Betdaq.cancelNotReported (Betdaq.cancelReported o2)).status)) =
+    (some .executable, some .cancelling, false, some .executionComplete, some .executionComplete, some .executionComplete) := by decide +kernel
+
+end Bdq
 
 /-! ### non-vacuity: a cancel accepted, a second one rejected, the response applied -/
 
